@@ -505,7 +505,7 @@ pub fn init_repo(cfg: &ConfigOptions, v1: bool) -> Option<RepoHandle> {
         return RepoHandle::init(MemBackend::new(), None, cfg).map_err(|e| dbg(&e)).ok().map(|x| x.0);
     }
     let h = RepoHandle { be: MemBackend::new(), hot: None, key: MasterKey::new() };
-    let mut config = rustic_core::repofile::ConfigFile::new(1, Default::default(), 0x003D_A335_8B4D_C173);
+    let mut config = rustic_core::repofile::ConfigFile::new(1, Id::random().into(), 0x003D_A335_8B4D_C173);
     cfg.apply(&mut config).map_err(|e| dbg(&e)).ok()?;
     let repo = Repository::new(&RepositoryOptions::default().no_cache(true), &h.backends()).map_err(|e| dbg(&e)).ok()?;
     _ = repo
